@@ -181,6 +181,10 @@ struct Job {
     /// stop after UiDocument::parse (used to attribute a CPU-budget overrun to the parser call)
     #[serde(default)]
     parse_only: bool,
+    /// for `path` jobs: [dir a, component A, dir b, component B] -> does A (of directory a) derive from B (of directory b)?
+    /// Answered on the type map populated from `path`; directories are given as written on disk (any spelling).
+    #[serde(default)]
+    component_queries: Vec<[String; 4]>,
 }
 
 fn default_type_name() -> String {
@@ -312,6 +316,33 @@ fn cmd_translate(args: &[String]) -> io::Result<()> {
                     writeln!(out, "{}", json!({"id": job.id, "mode": "-", "rep": 0, "panic": format!("populate: {}", take_panic().unwrap_or_default())}))?;
                     continue;
                 }
+            }
+            if !job.component_queries.is_empty() {
+                let answers = panic::catch_unwind(AssertUnwindSafe(|| {
+                    let class_of = |dir: &str, name: &str| -> Result<qmluic::typemap::Class, String> {
+                        let id = qmluic::typemap::ModuleIdBuf::Directory(qmluic::qmldir::normalize_path(dir));
+                        let ns = tm.get_module(id.as_ref()).ok_or_else(|| "no such directory module".to_owned())?;
+                        match qmluic::typemap::TypeSpace::get_type(&ns, name) {
+                            Some(Ok(qmluic::typemap::NamedType::QmlComponent(c))) => Ok(c.into_class()),
+                            Some(Ok(qmluic::typemap::NamedType::Class(c))) => Ok(c),
+                            Some(Ok(_)) => Err("not a class".to_owned()),
+                            Some(Err(e)) => Err(e.to_string()),
+                            None => Err("no such type".to_owned()),
+                        }
+                    };
+                    job.component_queries
+                        .iter()
+                        .map(|[da, a, db, b]| match (class_of(da, a), class_of(db, b)) {
+                            (Ok(x), Ok(y)) => json!({"derived": x.is_derived_from(&y)}),
+                            (Err(e), _) | (_, Err(e)) => json!({"error": e}),
+                        })
+                        .collect::<Vec<_>>()
+                }));
+                match answers {
+                    Ok(a) => writeln!(out, "{}", json!({"id": job.id, "mode": "-", "rep": 0, "component_answers": a, "cpu_ms": process_cpu_ms() - JOB_START_CPU_MS.load(std::sync::atomic::Ordering::Relaxed)}))?,
+                    Err(_) => writeln!(out, "{}", json!({"id": job.id, "mode": "-", "rep": 0, "panic": format!("component query: {}", take_panic().unwrap_or_default())}))?,
+                }
+                continue;
             }
             let doc = match docs_cache.get(&path) {
                 Some(d) => d.clone(),
